@@ -417,6 +417,15 @@ func (r *replicatorActor) handleUpdate(ctx *ReceiveContext, msg updateCommand) {
 // handleGet reads the current value of a CRDT key.
 func (r *replicatorActor) handleGet(ctx *ReceiveContext, msg getCommand) {
 	keyID := msg.KeyID()
+
+	// a tombstoned key has no value: never consult the peers (a peer that has not
+	// received the tombstone yet would hand the deleted value back, and the merged
+	// result would be stored locally behind the tombstone's back)
+	if _, ok := r.tombstones[keyID]; ok {
+		ctx.Response(msg.Response(nil))
+		return
+	}
+
 	data := r.store[keyID]
 
 	coordination := msg.ReadCoordination()
@@ -531,10 +540,17 @@ func (r *replicatorActor) handleProtoTombstone(msg *internalpb.CRDTTombstone) {
 	delete(r.store, keyID)
 	delete(r.versions, keyID)
 
+	// keep the most recent deletion: an older tombstone arriving late must not
+	// shorten the protection window of a newer one
+	deletedAt := time.Unix(0, msg.GetDeletedAtNanos())
+	if current, ok := r.tombstones[keyID]; ok && !deletedAt.After(current.deletedAt) {
+		return
+	}
+
 	r.tombstones[keyID] = &tombstone{
 		keyID:     keyID,
 		dataType:  dataType,
-		deletedAt: time.Unix(0, msg.GetDeletedAtNanos()),
+		deletedAt: deletedAt,
 		deletedBy: msg.GetDeletedByNode(),
 	}
 }
